@@ -36,8 +36,25 @@ class Unknown(Exception):
 
 # ------------------------------------------------------------------------------------------------ printing
 def num_text(v: float) -> str:
-    s = f"{v:.3f}".rstrip("0").rstrip(".")
+    s = f"{v:.6f}".rstrip("0").rstrip(".")
     return s if s else "0"
+
+
+def three_decimal(t) -> bool:
+    """Do all literals of the tree survive printing with 3 decimals (what Node.postfix() prints)?"""
+    if t["k"] == "num":
+        return float(f"{t['v']:.3f}") == t["v"]
+    return all(three_decimal(c) for c in t.get("a", []))
+
+
+def perturbed(t, delta: float):
+    """The same tree with every literal moved by delta (a near-identical twin sub-expression)."""
+    if t["k"] == "num":
+        return {"k": "num", "v": float(f"{t['v'] + delta:.6f}")}
+    out = dict(t)
+    if "a" in t:
+        out["a"] = [perturbed(c, delta) for c in t["a"]]
+    return out
 
 
 def prec_of(t) -> int:
